@@ -496,8 +496,12 @@ fn main() {
     let registry = ConverterRegistry::make_registry();
     let mut import_paths = Vec::new();
     let mut env_vars = BTreeMap::new();
-    for (var, val) in std::env::vars() {
-        env_vars.insert(var.into(), val.into());
+    // std::env::vars() panics on a name or value that is not valid unicode.
+    // Such a variable can not be a ucg string, leave it out instead.
+    for (var, val) in std::env::vars_os() {
+        if let (Some(var), Some(val)) = (var.to_str(), val.to_str()) {
+            env_vars.insert(var.into(), val.into());
+        }
     }
     let env = RefCell::new(Environment::new_with_vars(
         StdoutWrapper::new(),
